@@ -178,6 +178,14 @@ func upper(t *rt.Thread, c *rt.GoCont) (rt.Cont, error) {
 	return c.PushingNext1(t.Runtime, rt.StringValue(string(sb))), nil
 }
 
+// maxRepSize is the largest result string.rep agrees to build.  A size that
+// fits an int can still be impossible to allocate: Go then panics with
+// "makeslice: len out of range" (or dies out of memory), which is not a Lua
+// error and escapes pcall.  2^40 bytes is far above any real machine and below
+// Go's maximum allocation size (2^47 on amd64); beyond it rep raises
+// "resulting string too large", as the reference implementation does.
+const maxRepSize = 1 << 40
+
 func rep(t *rt.Thread, c *rt.GoCont) (rt.Cont, error) {
 	if err := c.CheckNArgs(2); err != nil {
 		return nil, err
@@ -213,6 +221,9 @@ func rep(t *rt.Thread, c *rt.GoCont) (rt.Cont, error) {
 			// Overflow
 			return nil, errors.New("rep causes overflow")
 		}
+		if n*len(ls) > maxRepSize {
+			return nil, errors.New("resulting string too large")
+		}
 		t.RequireBytes(n * len(ls))
 		return c.PushingNext1(t.Runtime, rt.StringValue(strings.Repeat(string(ls), n))), nil
 	}
@@ -223,6 +234,9 @@ func rep(t *rt.Thread, c *rt.GoCont) (rt.Cont, error) {
 	sz := sz1 + sz2
 	if sz1/n != len(s) || sz2/(n-1) != len(sep) || sz < 0 {
 		return nil, errors.New("rep causes overflow")
+	}
+	if sz > maxRepSize {
+		return nil, errors.New("resulting string too large")
 	}
 	if sz == 0 {
 		// Nothing to build: do not loop n times for free.
